@@ -15,7 +15,8 @@ META = dict(
          "TLC checks on every recorded real state: lookup total = sum of locker balances (and the id list), locker custody >= totals, withdraw / "
          "close pay exactly the requested amount / full net balance, net fees >= 0, and in step form that the recorded net fees of every asset "
          "move exactly with the collector's custody of that asset (inflows: draw-down / closing fee, interest, liquidation penalty, debt "
-         "cover; outflows: savings, auction lots, surplus fund). Saving-rate rewards and interest are the code's float amounts taken from the log. "
+         "cover; outflows: savings, auction lots, surplus fund; lots returned by an emergency-shutdown close), also for governance saving-rate "
+         "changes (settlement of every locker of the app) and for locker messages whose app / asset / locker id do not belong together. Saving-rate rewards and interest are the code's float amounts taken from the log. "
          "Exhaustive for the bounded models, sampled beyond them.",
     note="Trusted: TLC/Json module, projection functions, bank/store semantics. Rewards / interest (math.Pow) are environment amounts constrained by "
          "the laws, not recomputed. Generation-1 hook called directly. Net fees are seeded at the root of auction behaviours through the collector "
@@ -41,6 +42,10 @@ def run_english(c):
     c.judge(C, lc)
     sa, sc = A["stats"], C["stats"]
     need = dict(closesGen1=sa.get("closesGen1", 0), closesGen2=sa.get("closesGen2", 0), starts=sa.get("starts", 0), feeMoves=sa.get("feeMoves", 0),
+                shutdownEndsWithBid=sa.get("shutdownEndsWithBid", 0), shutdownEndsNoBid=sa.get("shutdownEndsNoBid", 0),
+                shutdownEndsSurplus=sa.get("shutdownEndsSurplus", 0),
+                crossAppRewardCalc=sc.get("crossAppRewardCalc", 0), crossAppMsgs=sc.get("crossAppMsgs", 0), wrongAssetMsgs=sc.get("wrongAssetMsgs", 0),
+                lsrChanges=sc.get("lsrChanges", 0), lsrChangesMulti=sc.get("lsrChangesMulti", 0),
                 creates=sc.get("creates", 0), deposits=sc.get("deposits", 0), withdraws=sc.get("withdraws", 0), closes=sc.get("closes", 0),
                 rewards=sc.get("rewards", 0), feeIn=sc.get("feeIn", 0), feeOut=sc.get("feeOut", 0), vaultConf=sc.get("vaultConf", 0),
                 interestPaid=sc.get("interestPaid", 0), penalties=sc.get("penalties", 0), twoApps=sc.get("twoApps", 0))
